@@ -372,6 +372,32 @@ pub enum Host {
 }
 
 /// Write the expression inside a unit and check what comes back.
+/// Upper bound of the encoded size of the built operations (every operand at its widest).
+fn max_size(bs: &[B]) -> usize {
+    bs.iter()
+        .map(|b| match b {
+            B::ConstType(_, d) | B::ImplicitValue(d) => 22 + d.len(),
+            B::EntryValue(v) => 11 + max_size(v),
+            _ => 22,
+        })
+        .sum()
+}
+
+/// Can `ValueTooLarge` be a justified refusal for these operations? (Never says no when the
+/// writer's documented limits are touched: an address wider than the address size, a constant
+/// block longer than its one-byte length, a branch that may have to jump further than 16 bits,
+/// a `.debug_loc` expression that may be longer than its two-byte length.)
+fn value_too_large_possible(bs: &[B], cfg: &Cfg, loc_host: bool) -> bool {
+    fn any(bs: &[B], f: &dyn Fn(&B) -> bool) -> bool {
+        bs.iter().any(|b| f(b) || matches!(b, B::EntryValue(v) if any(v, f)))
+    }
+    let mask = cfg.mask();
+    any(bs, &|b| matches!(b, B::Addr(a) if *a > mask))
+        || any(bs, &|b| matches!(b, B::ConstType(_, d) if d.len() > 255))
+        || (any(bs, &|b| matches!(b, B::Skip(_) | B::Bra(_))) && max_size(bs) > 32767)
+        || (loc_host && cfg.ver < 5 && max_size(bs) > 65535)
+}
+
 thread_local! {
     /// Creation order of the entries around the referring entry (see `host_unit`).
     static LAYOUT: std::cell::Cell<u8> = const { std::cell::Cell::new(0) };
@@ -452,7 +478,8 @@ fn host_unit(ctx: &mut Ctx, cfg: &Cfg, bs: &[B], host: Host, evaluate: bool) {
     if let Err(e) = res {
         // a refusal is no wrong output; classes are recorded for the vacuity guards
         match e {
-            write::Error::ValueTooLarge => ctx.outcome("refused:value-too-large"),
+            write::Error::ValueTooLarge if value_too_large_possible(bs, cfg, host == Host::LocList) => ctx.outcome("refused:value-too-large"),
+            write::Error::ValueTooLarge => ctx.fail("write::Dwarf::write", "refusal", "encodable-expression-refused", format!("{}: {:?}", case(), e)),
             // a fix-up that does not fit the section it is applied to is never a justified refusal
             write::Error::OffsetOutOfBounds | write::Error::LengthOutOfBounds => ctx.fail("write::Dwarf::write", "refusal", "fixup-out-of-bounds", format!("{}: {:?}", case(), e)),
             // base types are written before every other entry of the unit, and the other
@@ -612,7 +639,7 @@ fn host_cfi(ctx: &mut Ctx, cfg: &Cfg, bs: &[B], evaluate: bool) {
             ctx.outcome("refused:cfi-reference");
             return;
         }
-        Err(write::Error::ValueTooLarge) => {
+        Err(write::Error::ValueTooLarge) if value_too_large_possible(bs, cfg, false) => {
             ctx.outcome("refused:value-too-large");
             return;
         }
